@@ -202,6 +202,7 @@ pub fn scenarios(thorough: bool) -> Vec<Scenario> {
         &[Op::Resolve(1, 0, 0), Op::Resolve(1, 0, 1), Op::Sync(0, 1)]));
     v.push(pair_scenario("pair-arrays", if thorough { &[2, 3, 4, 9] } else { &[3, 4] }, if thorough { 6 } else { 5 }, &[Op::Resolve(0, 0, 1)]));
     v.push(trio_scenario("trio", if thorough { 7 } else { 6 }));
+    v.push(long_chain_scenario("pair-long-chain", if thorough { 3 } else { 2 }, &[]));
     v
 }
 
